@@ -178,3 +178,158 @@ def random_history(rng, select_kind):
                 ev.append((f, rng.choice(MASKS)))
             ops.append(('poll', ('events', ev)))
     return ops
+
+
+# ---------------------------------------------------------------------------------------------------- KQueuePoller
+KQ_READ, KQ_WRITE, KQ_EV_ADD, KQ_EV_DELETE = -1, -2, 1, 2
+ENOENT = 2
+
+
+class _KEvent(object):
+    def __init__(self, ident, filter=KQ_READ, flags=KQ_EV_ADD):
+        self.ident, self.filter, self.flags = ident, filter, flags
+
+
+class ScriptKQueue(object):
+    """select.kqueue with the registry semantics of the kernel: EV_ADD adds (ident, filter), EV_DELETE of an unknown
+    pair fails with ENOENT; a scripted errno makes the next control() call fail instead."""
+
+    def __init__(self, mod):
+        self.m = mod
+        self.reg = set()
+        self.closed = False
+
+    def control(self, changelist, max_events, timeout=None):
+        if changelist is None:
+            a = self.m.answers.pop(0)
+            if a[0] == 'err':
+                raise OSError(a[1], 'scripted')
+            return [_KEvent(i, f, 0) for (i, f) in a[1]]
+        e = self.m.next_errno
+        self.m.next_errno = 0
+        if e:
+            raise OSError(e, 'scripted')
+        for ev in changelist:
+            key = (ev.ident, ev.filter)
+            if ev.flags & KQ_EV_ADD:
+                self.reg.add(key)
+            elif ev.flags & KQ_EV_DELETE:
+                if key not in self.reg:
+                    raise OSError(ENOENT, 'no such event')
+                self.reg.discard(key)
+        return []
+
+    def close(self):
+        self.closed = True
+
+
+class ScriptSelectKQ(object):
+    KQ_FILTER_READ, KQ_FILTER_WRITE, KQ_EV_ADD, KQ_EV_DELETE = KQ_READ, KQ_WRITE, KQ_EV_ADD, KQ_EV_DELETE
+    error = OSError
+    kevent = _KEvent
+
+    def __init__(self):
+        self.answers = []
+        self.next_errno = 0
+        self.obj = None
+
+    def kqueue(self):
+        self.obj = ScriptKQueue(self)
+        return self.obj
+
+
+def run_kq_history(ops):
+    """ops: ('rr',fd,e) ('rw',fd,e) ('ur',fd,e) ('uw',fd,e) ('poll', answer) ('daemonize',)"""
+    import supervisor.poller as sp
+    saved = sp.select
+    fake = ScriptSelectKQ()
+    sp.select = fake
+    try:
+        p = sp.KQueuePoller(_Opts())
+        outs = []
+        for o in ops:
+            try:
+                if o[0] in ('rr', 'rw', 'ur', 'uw'):
+                    fake.next_errno = o[2]
+                    {'rr': p.register_readable, 'rw': p.register_writable, 'ur': p.unregister_readable,
+                     'uw': p.unregister_writable}[o[0]](o[1])
+                    outs.append(('done',))
+                elif o[0] == 'daemonize':
+                    p.before_daemonize()
+                    p.after_daemonize()
+                    outs.append(('done',))
+                else:
+                    fake.answers = [o[1]]
+                    r, w = p.poll(1)
+                    outs.append(('ready', list(r), list(w)))
+            except OSError as e:
+                outs.append(('raise', e.args[0]))
+            except Exception:
+                outs.append(('raise', -1))
+            fake.next_errno = 0
+        return outs, sorted(p.readables), sorted(p.writables), sorted(fake.obj.reg)
+    finally:
+        sp.select = saved
+
+
+def kq_op_term(o):
+    if o[0] in ('rr', 'rw', 'ur', 'uw'):
+        return '%s %d %d' % ({'rr': 'KRegR', 'rw': 'KRegW', 'ur': 'KUnregR', 'uw': 'KUnregW'}[o[0]], o[1], o[2])
+    if o[0] == 'daemonize':
+        return 'KDaemonize'
+    a = o[1]
+    if a[0] == 'err':
+        return 'KPoll (KErr %d)' % a[1]
+    return 'KPoll (KEvents %s)' % pairs_z(a[1])
+
+
+def pairs_z(l):
+    return '[' + '; '.join('(%d, (%d))' % (a, b) for a, b in l) + ']'
+
+
+def kq_case_term(ops, res):
+    outs, rs, ws, reg = res
+    return 'mkKC [%s] [%s] %s %s %s' % ('; '.join(kq_op_term(o) for o in ops), '; '.join(out_term(o) for o in outs),
+                                       zl(rs), zl(ws), pairs_z(reg))
+
+
+def kq_alphabet():
+    al = []
+    for fd in (3, 4):
+        al += [('rr', fd, 0), ('rw', fd, 0), ('ur', fd, 0), ('uw', fd, 0)]
+    al += [('rr', 3, EBADF), ('ur', 3, EBADF), ('rw', 4, 12), ('daemonize',),
+           ('poll', ('err', EINTR)), ('poll', ('err', EBADF)),
+           ('poll', ('events', [(3, KQ_READ), (4, KQ_WRITE), (4, KQ_READ)]))]
+    return al
+
+
+def kq_exhaustive(depth):
+    al = kq_alphabet()
+    for n in range(1, depth + 1):
+        for w in itertools.product(al, repeat=n):
+            yield list(w)
+
+
+def kq_random_history(rng):
+    ops = []
+    fds = [3, 4, 5, 6, 9]
+    for _ in range(rng.randrange(1, 25)):
+        r = rng.random()
+        fd = rng.choice(fds)
+        e = rng.choice([0, 0, 0, 0, 0, EBADF, EINTR, 12, 22])
+        if r < 0.25:
+            ops.append(('rr', fd, e))
+        elif r < 0.45:
+            ops.append(('rw', fd, e))
+        elif r < 0.55:
+            ops.append(('ur', fd, e))
+        elif r < 0.65:
+            ops.append(('uw', fd, e))
+        elif r < 0.72:
+            ops.append(('daemonize',))
+        elif r < 0.82:
+            ops.append(('poll', ('err', rng.choice([EINTR, EINTR, EBADF, 12, 22]))))
+        else:
+            ev = [(rng.choice(fds), rng.choice([KQ_READ, KQ_WRITE, -3])) for _ in range(rng.randrange(0, 5))]
+            ops.append(('poll', ('events', ev)))
+    return ops
